@@ -21,14 +21,14 @@ type Bounds struct {
 
 // SymBuilder creates symbolic values of Go types (structure forked, scalars symbolic).
 type SymBuilder struct {
-	R       *engine.Run
-	B       Bounds
-	depth   map[*types.Named]int
-	ptrPool map[string][]engine.Pointer // aliasing: earlier pointer targets by pointee type
-	slPool  map[string][]engine.Slice
-	mapPool map[string][]engine.Map
-	Cut     int // number of positions cut by RecDepth
-	n       int
+	R          *engine.Run
+	B          Bounds
+	depth      map[*types.Named]int
+	ptrPool    map[string][]engine.Pointer // aliasing: earlier pointer targets by pointee type
+	slPool     map[string][]engine.Slice
+	mapPool    map[string][]engine.Map
+	Cut        int // number of positions cut by RecDepth
+	n          int
 	sliceDepth int
 }
 
